@@ -78,9 +78,9 @@ func featOf(fs []feature, field string) string {
 // the encoded objects as additional raw cases (git must read them the way go-git meant them).
 func structSide(c *vf.Ctx, fname string, idLen int) []*kase {
 	r := c.Rand("structs", fname)
-	n := c.N(300, 6000)
+	n := c.N(300, 3000)
 	if fname == "sha256" {
-		n = c.N(100, 1500)
+		n = c.N(100, 800)
 	}
 	var out []*kase
 	msgKinds := []struct{ n, v string }{{"subject", "subject\n"}, {"body", "subject\n\nbody\nmore\n"}, {"no-final-nl", "no newline"}, {"empty", ""}, {"only-nl", "\n"}, {"leading-blank", "\n\nx\n"},
